@@ -470,7 +470,7 @@ pub fn run(ctx: &mut Ctx) {
     ctx.prop("rectifiers/random", ctx.pick(50_000, 500_000), strat, check_rect);
 
     // envelope
-    ctx.prop("envelope/histories", ctx.pick(6000, 80_000), env_strategy(), check_env);
+    ctx.prop("envelope/histories", ctx.pick(20_000, 120_000), env_strategy(), check_env);
 
     // F8: the excluded region has exactly one deterministic probe
     match f8_probe() {
